@@ -595,7 +595,9 @@ def r5_existing_target_refused_first(repo=None):
                 out.add("".join(canon))
             except AnalysisError:
                 out.add(text)
+                unfollowed.append(text)
         return out
+    unfollowed = []
     for n in tests:
         before = [(e_, what) for e_, what in effects if e_.id != n.id and n.id in g.reach([e_.id], skip_labels=("back",))]
         site = "%s:%s %s `%s`" % (LIB, n.line, fn.name, n.label[:60])
@@ -607,6 +609,11 @@ def r5_existing_target_refused_first(repo=None):
             r.ok(site, "repeats the test of line %d, which refuses an existing target before any change (this one can only see a file "
                  "created in between)" % earlier[0].line)
             continue
+        if before and unfollowed and len(tests) > 1:
+            # which file the tests probe was not established for all of them: "this is the test that refuses, and it comes late" is
+            # not shown (it may repeat an earlier one)
+            raise AnalysisError("%s: the composition of the probed path `%s` was not followed; whether the test at line %d repeats an earlier "
+                                "one is not decided" % (fn.name, unfollowed[0][:40], n.line))
         if before:
             e_, what = sorted(before, key=lambda t: t[0].line)[0]
             r.violation(LIB, fn.name, "`%s` is tested after %s" % (n.label[:50], what),
